@@ -58,6 +58,8 @@ def systematic_items(tier: str, seed: int, focus: str):
             cfg = {"ca": ca, "vh": vh, "dh": dh, "height": 64 if not knobs.get("heights") else knobs["heights"][(i + dh) % len(knobs["heights"])]}
             if vh == 3:
                 cfg["vparams"] = _cost_tables(r, P)
+                if (i + dh) % 2:      # null costs = ignored values (in contract for max_regret)
+                    cfg["vparams"] = [[c if (k + i) % 3 else 0 for k, c in enumerate(row)] for row in cfg["vparams"]]
             if dh == 4:
                 cfg["dparams"] = _cost_tables(r, P)
             mode = knobs["modes"][(i + dh) % len(knobs["modes"])]
